@@ -1,10 +1,18 @@
 import CkcVerif.Model.Card
+import CkcVerif.Model.SixSeven
+import CkcVerif.Model.HandRank
+import CkcVerif.Model.BitCard
+import CkcVerif.Model.Two
+import CkcVerif.Model.Parse
+import CkcVerif.Model.Containers
 /-!
 # Model driver: one request per line on stdin, one answer per line on stdout.
 
 Requests are space-separated decimal integers after a command word.  `panic` stands for `none`
 (the Rust code would panic); `bad-request` for anything the driver does not understand (never
-defaulted).  Only `CkcVerif.Model.*` / `Spec.*` (core Lean, no Mathlib) is imported, so this links.
+defaulted).  Only `CkcVerif.Model.*` (core Lean, no Mathlib) is imported, so this links.
+The evaluator runs on `CK.arrays`, which `CK.arrays_eq_packed` proves equal to the `CK.packed`
+tables the theorems are about.
 -/
 open CK
 
@@ -15,8 +23,32 @@ def showOpt : Option Nat → String
   | none => "panic"
 
 def joinNats (l : List Nat) : String := " ".intercalate (l.map toString)
+def joinStrs (l : List String) : String := " ".intercalate l
 
 def boolNat (b : Bool) : Nat := if b then 1 else 0
+def showOptBool : Option Bool → String
+  | some b => toString (boolNat b)
+  | none => "panic"
+def showOptInt : Option Int → String
+  | some v => toString v
+  | none => "panic"
+
+def T : Tables := arrays
+
+def showRank (r : HandRank) : String := joinNats [r.value, r.name, r.cls]
+
+def showValueHand : Option (Nat × List Nat) → String
+  | some (v, h) => toString v ++ " " ++ joinNats h
+  | none => "panic"
+
+/-- split `xs` at the first `sep` (used for compound requests) -/
+def splitAt (sep : Nat) (xs : List Nat) : List Nat × List Nat :=
+  (xs.takeWhile (· != sep), (xs.dropWhile (· != sep)).drop 1)
+
+def histOps : List Nat → Option (List Op)
+  | [] => some []
+  | k :: x :: rest => (histOps rest).map (Op.set k x :: ·)
+  | _ => none
 
 def answer (cmd : String) (args : List Nat) : String :=
   match cmd, args with
@@ -28,6 +60,93 @@ def answer (cmd : String) (args : List Nat) : String :=
   | "create", [r, s] => toString (create r s)
   | "deck", [i] => toString (deckGet i)
   | "frombc", [x] => toString (fromBinaryCard x)
+  | "find", [k] => showOpt (findInProducts T k)
+  | "ev5", [a, b, c, d, e] =>
+    let h := [a, b, c, d, e]
+    joinStrs [showValueHand (handRankValueAndHand5 T h), showOpt (handRankValue5 T h),
+      showOpt (handRankValueValidated5 T h), showOpt (fiveCards T h),
+      joinNats [boolNat (isFlush h), boolNat (isStraight h), boolNat (isStraightFlush h), boolNat (isWheel h),
+        boolNat (evaluateIsFlush h), evaluateOrRankBits h, andBits h, orBits h, orRankBits h, multiplyPrimes h],
+      match handRankValue5 T h with
+      | some v => showRank (HandRank.ofValue v)
+      | none => "panic",
+      match handRankValueValidated5 T h with
+      | some v => showRank (HandRank.ofValue v)
+      | none => "panic"]
+  | "ev6", [_, _, _, _, _, _] =>
+    joinStrs [showValueHand (handRankValueAndHand6 T args), showOpt (handRankValue T args),
+      showOpt (handRankValueValidated T args),
+      match handRankValue T args with
+      | some v => showRank (HandRank.ofValue v)
+      | none => "panic"]
+  | "ev7", [_, _, _, _, _, _, _] =>
+    joinStrs [showValueHand (handRankValueAndHand7 T args), showOpt (handRankValue T args),
+      showOpt (handRankValueValidated T args),
+      match handRankValue T args with
+      | some v => showRank (HandRank.ofValue v)
+      | none => "panic"]
+  | "val", ws =>
+    if 2 ≤ ws.length ∧ ws.length ≤ 7 then
+      joinNats [boolNat (areUnique ws), boolNat (containBlank ws), boolNat (isCorrupt ws), boolNat (isValid ws)]
+    else "bad-request"
+  | "sort", ws =>
+    if 2 ≤ ws.length ∧ ws.length ≤ 7 then joinNats (sortDesc ws ++ sortDesc ws) else "bad-request"
+  | "shift", ws =>
+    if 2 ≤ ws.length ∧ ws.length ≤ 7 then joinNats (shiftSuitHand ws) else "bad-request"
+  | "rank", [v] =>
+    let r := HandRank.ofValue v
+    joinStrs [showRank r, toString (boolNat r.isInvalid), toString (boolNat r.isAValidHandRank)]
+  | "rankdefault", [] => showRank HandRank.default
+  | "cmp", [a, b] =>
+    let x := HandRank.ofValue a
+    let y := HandRank.ofValue b
+    joinNats [ordCode (x.cmp y), ordCode (x.cmp y), boolNat (x.lt y), boolNat (x.le y), boolNat (x.gt y),
+      boolNat (x.ge y), boolNat (x == y)]
+  | "bc", ws =>
+    if 2 ≤ ws.length ∧ ws.length ≤ 7 then toString (bcFromHand ws) else "bad-request"
+  | "bcops", [x, y] =>
+    joinNats [foldIn x y, boolNat (has x y), numberOfCards x, boolNat (isSingleCard x), boolNat (bcIsValid x)]
+  | "peel", [x, k] =>
+    let r := peelIter k x
+    joinNats (r.1 ++ [r.2])
+  | "two", [x] =>
+    match twoFromBc x with
+    | .ok a b => joinNats [0, a, b, bcFromHand [a, b]]
+    | .notEnoughCards => "1"
+    | .tooManyCards => "2"
+    | .invalidBinaryFormat => "3"
+  | "chen", [a, b] =>
+    joinStrs [showOptInt (chenFormula a b), showOpt (getGap a b), showOptBool (isConnector a b),
+      toString (boolNat (isPocketPair a b)), toString (boolNat (isSuited a b)),
+      showOptBool (isSuitedConnector a b), toString (highCard a b)]
+  | "parse", n :: cps =>
+    match parseHand n cps with
+    | some ws => joinNats ws
+    | none => "none"
+  | "idx", cps =>
+    let p := getRankAndSuit cps
+    joinNats [p.1, p.2, fromIndex cps]
+  | "bcidx", cps => toString (bcFromIndex cps)
+  | "hist", n :: rest =>
+    let init := rest.take n
+    match histOps (rest.drop n) with
+    | some ops =>
+      if init.length = n then
+        joinNats (ops.foldl (fun (acc : List Nat × List Nat) op =>
+          let s := applyOp acc.1 op
+          (s, acc.2 ++ s)) (init, init)).2
+      else "bad-request"
+    | none => "bad-request"
+  | "six123", [one, t1, t2, h1, h2, h3] => joinNats (six123 one [t1, t2] [h1, h2, h3])
+  | "sevennew", [t1, t2, f1, f2, f3, f4, f5] => joinNats (sevenNew [t1, t2] [f1, f2, f3, f4, f5])
+  | "pick", n :: rest =>
+    let ws := rest.take n
+    let row := rest.drop n
+    if ws.length = n ∧ row.length = 5 then
+      match pick ws row with
+      | some h => joinNats h
+      | none => "panic"
+    else "bad-request"
   | _, _ => "bad-request"
 
 partial def loop (hin : IO.FS.Stream) (hout : IO.FS.Stream) (buf : String) (n : Nat) : IO Unit := do
